@@ -680,6 +680,7 @@ class Engine:
         self._fresh = {}
         self._dirty = True
         self._mul_seen = set()
+        self._path_failed = False
         self.tags = {}
 
     def fresh_name(self, prefix):
@@ -913,11 +914,14 @@ class Engine:
             self.samples.append(dict(obligation=oid, shape=self.tags.get("shape"), path=len(self.trace), formula=str(neg)[:400], info=info))
         r = self.check(neg)
         model = self.model() if r == z3.sat else None
+        if r == z3.sat and self.mulmode == "uf":
+            r, model = self._refine(neg, model)
         if r == z3.unsat:
             o["proved"] += 1
             return True
         if r == z3.sat:
             o["failed"] += 1
+            self._path_failed = True
             if len(o["cex"]) < 4:
                 o["cex"].append(self._cex(model, oid, info, neg))
             return False
@@ -925,6 +929,37 @@ class Engine:
         self.unknown.append(("prove", oid))
         self.stats.inc("unknown")
         return None
+
+    def _refine(self, neg, model):
+        """a counterexample found with uninterpreted products/quotients is re-derived with the
+        logged MUL/DIV applications constrained to the true products (fresh solver, NRA):
+        sat -> a model the real arithmetic can reproduce; unsat -> the counterexample was an
+        artefact of the abstraction and the obligation holds; unknown -> keep the first model
+        (the concrete replay decides)."""
+        links = []
+        for name, args, res in self.uflog:
+            if name == "MUL":
+                links.append(res == args[0] * args[1])
+            elif name == "DIV":
+                links.append(z3.Implies(args[1] != 0, res * args[1] == args[0]))
+        if not links:
+            return z3.sat, model
+        t0 = time.time()
+        f = z3.Solver()
+        f.set("timeout", 20000)
+        f.add(*self.solver.assertions())
+        f.add(neg)
+        f.add(*links)
+        r = f.check()
+        self.stats.inc("queries")
+        self.stats.inc("refinements")
+        self.stats.inc("solver_s", time.time() - t0)
+        if r == z3.sat:
+            return z3.sat, f.model()
+        if r == z3.unsat:
+            self.stats.inc("refuted_by_refinement")
+            return z3.unsat, None
+        return z3.sat, model
 
     def more_models(self, oid_neg, k=3):
         return []
@@ -966,7 +1001,7 @@ class Engine:
                 harness(self, *args)
                 self.stats.inc("paths")
                 self.stats.inc("decisions", len(self.trace))
-                if len(self.witnesses) < self.witness_limit:
+                if len(self.witnesses) < self.witness_limit and not self._path_failed:
                     self._witness()
             except Abort:
                 self.stats.inc("aborted")
